@@ -815,6 +815,14 @@ pub struct Layout {
     /// emit zero-length metadata section
     pub empty_meta: bool,
     pub seed: u64,
+    /// leaf pointers may carry a tile id below their leaf's first id (still above everything
+    /// before them): the lookup procedure only needs "last entry with id <= target"
+    #[serde(default)]
+    pub loose_ptr: bool,
+    /// arrange data / leaf placement so that an entry directly after an entry of the other kind
+    /// (tile after leaf pointer, pointer after tile) gets the wire offset 0 ("contiguous")
+    #[serde(default)]
+    pub kind_coincidence: bool,
 }
 
 #[derive(Clone, Debug)]
@@ -837,6 +845,7 @@ pub fn write_foreign(
 ) -> Result<ForeignArchive, String> {
     let mut rng = crate::rng::Rng::new(layout.seed);
     let ic = layout.ic;
+    let mut data: Vec<u8> = data_section.to_vec();
     // build the directory tree bottom-up
     let mut leaf_section: Vec<u8> = Vec::new();
     let mut current: Vec<SpecEntry> = tile_entries.to_vec();
@@ -887,11 +896,36 @@ pub fn write_foreign(
             leaf_section.extend_from_slice(b);
         }
         let mut parent: Vec<SpecEntry> = Vec::new();
+        let mut prev_last: Option<u64> = None;
         for (ix, c) in chunks.iter().enumerate() {
             if blobs[ix].is_none() {
                 parent.extend_from_slice(c);
             } else {
-                parent.push(SpecEntry { tile_id: c[0].tile_id, offset: offs[ix].0, length: offs[ix].1, run_length: 0 });
+                let first = c[0].tile_id;
+                let tid = match (layout.loose_ptr, prev_last) {
+                    (true, Some(pl)) if first > pl + 1 => pl + 1 + rng.below(first - pl),
+                    (true, None) if first > 0 => rng.below(first + 1),
+                    _ => first,
+                };
+                parent.push(SpecEntry { tile_id: tid, offset: offs[ix].0, length: offs[ix].1, run_length: 0 });
+            }
+            prev_last = c.last().map(|e| if e.run_length == 0 { e.tile_id } else { e.tile_id + u64::from(e.run_length) - 1 });
+        }
+        if layout.kind_coincidence && levels_used == 0 {
+            // a tile entry right after a leaf pointer: store a copy of its content at data offset
+            // pointer.offset + pointer.length, so the wire offset of the tile entry becomes 0
+            for i in 1..parent.len() {
+                let (p, t) = (parent[i - 1], parent[i]);
+                if p.run_length == 0 && t.run_length != 0 {
+                    let target = p.offset + u64::from(p.length);
+                    if target >= data.len() as u64 && target < (1 << 20) {
+                        let src = t.offset as usize;
+                        let bytes = data[src..src + t.length as usize].to_vec();
+                        data.resize(target as usize, 0xDD);
+                        data.extend_from_slice(&bytes);
+                        parent[i].offset = target;
+                    }
+                }
             }
         }
         if chunks.is_empty() {
@@ -909,7 +943,7 @@ pub fn write_foreign(
     let meta = if layout.empty_meta { Vec::new() } else { compress(ic, meta_plain)? };
 
     // lay out sections
-    let sections: [&[u8]; 4] = [&root, &meta, &leaf_section, data_section];
+    let sections: [&[u8]; 4] = [&root, &meta, &leaf_section, &data];
     let mut order = layout.order;
     let mut gaps = layout.gaps;
     let try_layout = |order: &[u8; 4], gaps: &[u32; 5]| -> (Vec<u8>, [(u64, u64); 4]) {
@@ -955,5 +989,14 @@ pub fn write_foreign(
     h.n_contents = n_contents;
     h.clustered = clustered;
     img[..HEADER_LEN].copy_from_slice(&encode_header(&h));
+    if layout.kind_coincidence {
+        // contents may have been re-placed: recount from the writer's own output
+        if let Ok(w) = walk(&img, &h, Limits::VALID) {
+            let distinct: HashSet<(u64, u32)> = w.tile_entries.iter().map(|e| (e.offset, e.length)).collect();
+            h.n_contents = distinct.len() as u64;
+            h.clustered = 0;
+            img[..HEADER_LEN].copy_from_slice(&encode_header(&h));
+        }
+    }
     Ok(ForeignArchive { image: img, header: h, levels: levels_used })
 }
